@@ -24,3 +24,102 @@ package handshake
 //@   trusted AEAD open of the sealed token (external cryptography); only "error or some freshly allocated plaintext" is used
 //@   ensures isfresh(result0) || result0 == nil
 //@   modifies nothing
+
+// ---------------- key updates (C05) ----------------
+//@ extern (r encoding/binary.bigEndian) PutUint64
+//@   requires len(b) >= 8
+//@   modifies b[*]
+
+//@ func createAEAD
+//@   trusted AEAD construction from a traffic secret (external cryptography)
+//@   ensures result != nil
+//@   modifies nothing
+//@ func hkdfExpandLabel
+//@   trusted HKDF-Expand-Label (external cryptography)
+//@   modifies nothing
+
+// I1: no stale drop time without previous keys; I2: after a key update and before the first packet in the new phase,
+// the previous keys are still there; I3: keys installed; nonce buffer holds at least the 8 packet-number bytes.
+//@ pred (a *updatableAEAD) uaInv() = implies(a.prevRcvAEAD == nil, a.prevRcvAEADExpiry == 0) &&
+//@      implies(a.keyPhase > 0 && a.firstRcvdWithCurrentKey == -1, a.prevRcvAEAD != nil) &&
+//@      implies(a.prevRcvAEADExpiry != 0, a.firstRcvdWithCurrentKey != -1) &&
+//@      a.rcvAEAD != nil && a.nextRcvAEAD != nil && a.sendAEAD != nil && a.nextSendAEAD != nil && a.rttStats != nil && len(a.nonceBuf) >= 8 &&
+//@      a.keyPhase < 4611686018427387903 && a.numRcvdWithCurrentKey < 4611686018427387903 && a.numSentWithCurrentKey < 4611686018427387903 && a.invalidPacketCount < 4611686018427387903
+
+//@ func (a *updatableAEAD) getNextTrafficSecret
+//@   props C05
+//@   modifies nothing
+
+//@ func (a *updatableAEAD) rollKeys
+//@   props C05
+//@   requires a.uaInv() && a.keyPhase < 4611686018427387902
+//@   ensures [phase] a.keyPhase == old(a.keyPhase) + 1
+//@   ensures [reset] a.firstRcvdWithCurrentKey == -1 && a.firstSentWithCurrentKey == -1 && a.numRcvdWithCurrentKey == 0 && a.numSentWithCurrentKey == 0
+//@   ensures [keys] a.prevRcvAEAD == old(a.rcvAEAD) && a.rcvAEAD == old(a.nextRcvAEAD) && a.sendAEAD == old(a.nextSendAEAD)
+//@   ensures [timer-cleared] a.prevRcvAEADExpiry == 0 || (old(a.prevRcvAEAD) == nil && a.prevRcvAEADExpiry == old(a.prevRcvAEADExpiry))
+//@   ensures [inv] a.uaInv()
+//@   modifies a.keyPhase, a.firstRcvdWithCurrentKey, a.firstSentWithCurrentKey, a.numRcvdWithCurrentKey, a.numSentWithCurrentKey, a.prevRcvAEAD, a.rcvAEAD, a.sendAEAD,
+//@            a.nextRcvTrafficSecret, a.nextSendTrafficSecret, a.nextRcvAEAD, a.nextSendAEAD, a.prevRcvAEADExpiry
+
+//@ func (a *updatableAEAD) startKeyDropTimer
+//@   props C05
+//@   requires a.rttStats != nil
+//@   modifies a.prevRcvAEADExpiry
+
+//@ func (a *updatableAEAD) updateAllowed
+//@   props C05
+//@   ensures [iff] iff(result, a.handshakeConfirmed && (a.keyPhase == 0 || (a.firstSentWithCurrentKey != -1 && a.largestAcked != -1 && a.largestAcked >= a.firstSentWithCurrentKey)))
+//@   modifies nothing
+
+//@ func (a *updatableAEAD) shouldInitiateKeyUpdate
+//@   props C05
+//@   ensures [only-if-allowed] implies(result, a.handshakeConfirmed && (a.keyPhase == 0 || (a.firstSentWithCurrentKey != -1 && a.largestAcked != -1 && a.largestAcked >= a.firstSentWithCurrentKey)))
+//@   modifies nothing
+
+//@ func (a *updatableAEAD) KeyPhase
+//@   props C05
+//@   requires a.uaInv() && a.keyPhase < 4611686018427387902
+//@   ensures [update-only-if-allowed] implies(a.keyPhase != old(a.keyPhase), a.keyPhase == old(a.keyPhase) + 1 && old(a.handshakeConfirmed) &&
+//@            (old(a.keyPhase) == 0 || (old(a.firstSentWithCurrentKey) != -1 && old(a.largestAcked) != -1 && old(a.largestAcked) >= old(a.firstSentWithCurrentKey))))
+//@   ensures [bit] result == 1 + a.keyPhase % 2
+//@   ensures [inv] a.uaInv()
+//@   modifies a.keyPhase, a.firstRcvdWithCurrentKey, a.firstSentWithCurrentKey, a.numRcvdWithCurrentKey, a.numSentWithCurrentKey, a.prevRcvAEAD, a.rcvAEAD, a.sendAEAD,
+//@            a.nextRcvTrafficSecret, a.nextSendTrafficSecret, a.nextRcvAEAD, a.nextSendAEAD, a.prevRcvAEADExpiry
+
+//@ func (a *updatableAEAD) open
+//@   props C05
+//@   requires a.uaInv() && 0 <= pn && 0 <= rcvTime && rcvTime <= 4611686018427387903 && a.keyPhase < 4611686018427387902 && a.numRcvdWithCurrentKey < 4611686018427387902
+//@   ensures [inv] a.uaInv()
+//@   ensures [peer-update-legal] implies(a.keyPhase != old(a.keyPhase), result1 == nil && a.keyPhase == old(a.keyPhase) + 1 && kp != 1 + old(a.keyPhase) % 2 &&
+//@            (old(a.keyPhase) == 0 || old(a.firstSentWithCurrentKey) != -1) && a.firstRcvdWithCurrentKey == pn)
+//@   ensures [failure-keeps-phase] implies(result1 != nil, a.keyPhase == old(a.keyPhase) && a.firstRcvdWithCurrentKey == old(a.firstRcvdWithCurrentKey) && a.numRcvdWithCurrentKey == old(a.numRcvdWithCurrentKey) &&
+//@            a.rcvAEAD == old(a.rcvAEAD) && a.nextRcvAEAD == old(a.nextRcvAEAD))
+//@   ensures [counts] implies(result1 == nil && a.keyPhase == old(a.keyPhase) && kp == 1 + a.keyPhase % 2, a.numRcvdWithCurrentKey == old(a.numRcvdWithCurrentKey) + 1)
+//@   modifies a.keyPhase, a.firstRcvdWithCurrentKey, a.firstSentWithCurrentKey, a.numRcvdWithCurrentKey, a.numSentWithCurrentKey, a.prevRcvAEAD, a.rcvAEAD, a.sendAEAD,
+//@            a.nextRcvTrafficSecret, a.nextSendTrafficSecret, a.nextRcvAEAD, a.nextSendAEAD, a.prevRcvAEADExpiry, a.nonceBuf[*]
+
+//@ func (a *updatableAEAD) Open
+//@   props C05
+//@   requires a.uaInv() && 0 <= pn && pn <= 4611686018427387903 && 0 <= rcvTime && rcvTime <= 4611686018427387903 && a.keyPhase < 4611686018427387902 && a.numRcvdWithCurrentKey < 4611686018427387902 && a.invalidPacketCount < 4611686018427387902
+//@   ensures [inv] a.uaInv()
+//@   ensures [highest-monotone] a.highestRcvdPN >= old(a.highestRcvdPN)
+//@   ensures [highest-only-on-success] implies(result1 != nil, a.highestRcvdPN == old(a.highestRcvdPN))
+//@   ensures [highest-on-success] implies(result1 == nil, a.highestRcvdPN == max(old(a.highestRcvdPN), pn))
+//@   ensures [failure-keeps-phase] implies(result1 != nil, a.keyPhase == old(a.keyPhase))
+//@   modifies a.keyPhase, a.firstRcvdWithCurrentKey, a.firstSentWithCurrentKey, a.numRcvdWithCurrentKey, a.numSentWithCurrentKey, a.prevRcvAEAD, a.rcvAEAD, a.sendAEAD,
+//@            a.nextRcvTrafficSecret, a.nextSendTrafficSecret, a.nextRcvAEAD, a.nextSendAEAD, a.prevRcvAEADExpiry, a.nonceBuf[*], a.invalidPacketCount, a.highestRcvdPN
+
+//@ func (a *updatableAEAD) Seal
+//@   props C05
+//@   requires a.uaInv() && 0 <= pn
+//@   ensures [first-sent] a.firstSentWithCurrentKey == ite(old(a.firstSentWithCurrentKey) == -1, pn, old(a.firstSentWithCurrentKey))
+//@   ensures [count] a.numSentWithCurrentKey == old(a.numSentWithCurrentKey) + 1
+//@   ensures [phase-kept] a.keyPhase == old(a.keyPhase)
+//@   modifies a.firstSentWithCurrentKey, a.firstPacketNumber, a.numSentWithCurrentKey, a.nonceBuf[*]
+
+//@ func (a *updatableAEAD) SetLargestAcked
+//@   props C05
+//@   ensures [error-iff] iff(result != nil, a.firstSentWithCurrentKey != -1 && pn >= a.firstSentWithCurrentKey && a.numRcvdWithCurrentKey == 0)
+//@   ensures [code] implies(result != nil, iserr(result, qerr.KeyUpdateError) && a.largestAcked == old(a.largestAcked))
+//@   ensures [set] implies(result == nil, a.largestAcked == pn)
+//@   modifies a.largestAcked
